@@ -42,15 +42,16 @@ SLOTS = {
     "S2": dict(a="str!", b="str"),
     "EH": dict(lv="Level", md="oMode", x="int"),
     "TaskSelf": dict(x="int", c="cfg!"),
+    "Leaf2": dict(i="int!", s="str"),       # vpk.schema2.Leaf: same class NAME as Leaf, another module
 }
 CLASS_WEIGHTS = [("Leaf", 6), ("Inner", 7), ("Bag", 5), ("Req", 1), ("TaskA", 2), ("TaskOut", 1), ("Pre", 1),
-                 ("Init", 1), ("NewL", 1), ("OldL", 1), ("NewT", 1), ("OldT", 1), ("V1", 1), ("V2", 1), ("K1", 1), ("W1", 1), ("S2", 1), ("EH", 2), ("TaskSelf", 2)]
+                 ("Init", 1), ("NewL", 1), ("OldL", 1), ("NewT", 1), ("OldT", 1), ("V1", 1), ("V2", 1), ("K1", 1), ("W1", 1), ("S2", 1), ("EH", 2), ("TaskSelf", 2), ("Leaf2", 3)]
 # slots whose declaration is ignored (Meta/Option) -- used by the neutral-edit generator
 IGNORED = {"Leaf": {"m", "op", "mp"}, "Inner": {"mc", "oc"}, "Bag": {"mlc", "lp"}, "Init": {"w"}, "V2": {"z"}}
 DEFAULTS = {("Leaf", "f"): 1.5, ("Leaf", "s"): "a", ("Leaf", "b"): False, ("Leaf", "e"): "RED", ("Inner", "x"): 0,
             ("Inner", "name"): "", ("TaskA", "x"): 0, ("TaskOut", "x"): 0, ("Pre", "v"): 0, ("Init", "v"): 0,
             ("NewL", "i"): 0, ("OldL", "i"): 0, ("NewT", "x"): 0, ("OldT", "x"): 0, ("V2", "y"): 3, ("V2", "aa"): "dflt", ("V2", "n0"): 0, ("V2", "fl"): False, ("V2", "em"): "", ("Leaf", "od"): 5,
-            ("K1", "x"): 0, ("K2", "x"): 0, ("W1", "x"): 0, ("W2", "x"): 0, ("S2", "b"): "", ("TaskSelf", "x"): 0, ("EH", "x"): 0}
+            ("K1", "x"): 0, ("K2", "x"): 0, ("W1", "x"): 0, ("W2", "x"): 0, ("S2", "b"): "", ("TaskSelf", "x"): 0, ("EH", "x"): 0, ("Leaf2", "s"): "a"}
 
 
 def vint(v):
@@ -183,7 +184,8 @@ class Gen:
                 actions.append(dict(a="pre", n=r.randrange(n), ids=r.sample(light, min(len(light), r.choice([1, 1, 2])))))
         # tags (outside the signature)
         if r.random() < 0.2:
-            actions.append(dict(a="tag", n=r.randrange(n), k="t", v=r.choice([1, "x"])))
+            # (falsy tag values are tags too)
+            actions.append(dict(a="tag", n=r.randrange(n), k=r.choice(["t", "t", "u"]), v=r.choice([1, "x", 0, "", False, 0.0, 2.5])))
         # embedded task outputs: holder slot := output of a submitted task
         tasks = [i for i in range(n) if nodes[i]["cls"] in TASKS]
         for t in tasks:
@@ -343,7 +345,7 @@ def neutral_edit(rng, desc, g):
     d = copy.deepcopy(desc)
     n = len(d["nodes"])
     kinds = ["ignored-scalar", "ignored-config", "explicit-default", "tag", "inside-meta", "class-extension",
-             "meta-member", "optional-none"]
+             "meta-member", "optional-none", "tagged-kw", "tagged-kw", "meta-direct", "meta-direct"]
     rng.shuffle(kinds)
     for kind in kinds:
         cands = list(range(n))
@@ -443,6 +445,34 @@ def neutral_edit(rng, desc, g):
                     nd["kw"].append(["n0", vint(0)])
                 if rng.random() < 0.3:
                     nd["kw"].append(["fl", {"t": "bool", "v": False}])
+                return d, kind
+            if kind == "tagged-kw":
+                # the same value given as tag(value) to the constructor - also written in another accepted Python
+                # type (an int where a float is declared): tags are outside the signature, the stored value is the same
+                slots = [(s_, k.rstrip("!").lstrip("o")) for s_, k in SLOTS[cls].items()
+                         if k.rstrip("!").lstrip("o") in ("int", "float", "str") and s_ in kw and kw[s_] != NONE
+                         and kw[s_]["t"] in ("int", "float", "str")]
+                if not slots:
+                    continue
+                s_, k = rng.choice(slots)
+                v = kw[s_]
+                if k == "float" and v["t"] == "float" and float.fromhex(v["hex"]).is_integer() and abs(float.fromhex(v["hex"])) < 2 ** 40 \
+                        and not str(float.fromhex(v["hex"])).startswith("-0") and rng.random() < 0.8:
+                    v = {"t": "pyint", "v": int(float.fromhex(v["hex"]))}
+                nd["kw"] = [[a, (b if a != s_ else {"t": "tagged", "v": v})] for a, b in nd["kw"]]
+                return d, kind
+            if kind == "meta-direct":
+                # a configuration flagged meta held DIRECTLY by an optional parameter that was unset: same as unset
+                slots = [s_ for s_, k in SLOTS[cls].items() if k == "ocfg" and s_ not in IGNORED.get(cls, ())
+                         and kw.get(s_, NONE) == NONE
+                         and not any(a["a"] == "set" and a["n"] == i and a["name"] == s_ for a in d["actions"])]
+                if not slots:
+                    continue
+                s_ = rng.choice(slots)
+                d["nodes"].append(dict(cls="Leaf", kw=[["i", vint(rng.choice([41, 42]))]]))
+                j = len(d["nodes"]) - 1
+                d["actions"].insert(0, dict(a="meta", n=j, flag=True))
+                d["actions"].insert(1, dict(a="set", n=i, name=s_, v=vref(j)))
                 return d, kind
             if kind == "meta-member":
                 if cls != "Bag":
